@@ -238,9 +238,12 @@ Theorem apply_resp_spec : forall e from req okr a b n,
   | Some cbk =>
     wait_reply (nd s') = adel req (wait_reply n) /\
     if okr then
-      fired (outs s') = [] /\
-      (if a <=? applied n then exc s' = EXC_ASSERT /\ wait_commit (nd s') = wait_commit n
-       else wait_commit (nd s') = aset a (subs_of a (wait_commit n) ++ [(b, cbk)]) (wait_commit n))
+      (* a late answer (the index is already applied here): the callback is told LEADER_CHANGED *)
+      (if a <=? applied n then
+         wait_commit (nd s') = wait_commit n /\
+         fired (outs s') = match cbk with CbLocal id => [(id, 0, LEADER_CHANGED)] | _ => [] end
+       else fired (outs s') = [] /\
+            wait_commit (nd s') = aset a (subs_of a (wait_commit n) ++ [(b, cbk)]) (wait_commit n))
     else
       wait_commit (nd s') = wait_commit n /\
       fired (outs s') = match cbk with CbLocal id => [(id, 0, a)] | _ => [] end
@@ -250,7 +253,14 @@ Proof.
   change (nd (start_S e n)) with n.
   destruct (aget req (wait_reply n)) as [cbk|]; [|cbn; auto 10].
   destruct okr; cbn [negb].
-  - destruct (a <=? applied n) eqn:A; cbn; rewrite ?A; auto 12.
+  - change (applied (nd (upd (fun n0 => n0 <| wait_reply := adel req (wait_reply n0) |>) (start_S e n)))) with (applied n).
+    destruct (a <=? applied n) eqn:A.
+    + rewrite fire_nd, fire_outs. cbn [upd nd start_S outs app]. cbn.
+      repeat split; auto.
+      * unfold uview_of. now rewrite fire_nd.
+      * destruct cbk; reflexivity.
+      * destruct cbk; reflexivity.
+    + cbn. auto 12.
   - rewrite fire_nd, fire_outs. cbn [upd nd start_S outs app]. cbn.
     repeat split; auto.
     + unfold uview_of. now rewrite fire_nd.
